@@ -69,8 +69,15 @@ def valid_case(case):
 
 def eval_case(case):
     import contextlib, io
+    from vlib.runner import tool_exception_sig
     with contextlib.redirect_stdout(io.StringIO()):
-        return _eval_case(case)
+        try:
+            return _eval_case(case)
+        except Exception as e:
+            sig = tool_exception_sig(e)
+            if sig is None:
+                raise
+            return mkres(case, nt=True, classes=[case.get('kind', '?')], fails=[[sig, '%r on %r' % (e, case)]])
 
 
 def _eval_case(case):
